@@ -72,10 +72,13 @@ Qed.
 Print Assumptions C22_removal_closed_and_replacement_safe.
 
 (* The predicate `holds` evaluates on the implementation's dumps: it is sound for the clauses as Props, and the dump of
-   every model state satisfying the invariant passes it (totals in the range of their machine types). *)
+   every model state satisfying the invariant passes it (totals in the range of their machine types).  The last clause of the
+   predicate - every entry BIP68-final for the next block by a FRESH CalculateLockPointsAtTip / CheckSequenceLocksAtTip - is
+   checked on every implementation dump but is a premise here (fresh_bip68_ok): the invariant proves the cached LockPoints
+   valid and satisfied (clause 9 above), not that they agree with a fresh computation. *)
 Theorem C22_dump_predicate :
   (forall d, check_dump d = None -> dump_spec d) /\
-  (forall (U : tx -> Prop) st, Inv U st -> totals_in_range (s_pool st) -> check_dump (dump_of st) = None).
+  (forall (U : tx -> Prop) st, Inv U st -> totals_in_range (s_pool st) -> fresh_bip68_ok st -> check_dump (dump_of st) = None).
 Proof. split; [exact check_dump_sound|exact inv_dump_passes]. Qed.
 Print Assumptions C22_dump_predicate.
 
